@@ -52,10 +52,12 @@ ebpps_sample<T,A>::ebpps_sample(std::vector<T, A>&& data, optional<T>&& partial_
 template<typename T, typename A>
 template<typename TT>
 void ebpps_sample<T,A>::replace_content(TT&& item, double theta) {
-  c_ = theta;
+  // theta = rho * weight is at most 1 in exact arithmetic, but an averaged weight replayed by merge() can
+  // come out one ulp above 1.0: such an item is a full item, never a partial item with c_ > 1
+  c_ = std::min(theta, 1.0);
   data_.clear();
   partial_item_.reset();
-  if (theta == 1.0) {
+  if (theta >= 1.0) {
     data_.emplace_back(std::forward<TT>(item));
   } else {
     partial_item_.emplace(std::forward<TT>(item));
